@@ -258,6 +258,32 @@ def run_batch(harnesses, jobs=None, extra=None, timeout=None, use_cache=True):
     return parse_terse(out, harnesses, rc), out, " ".join(cmd), wall
 
 
+def _fill(r, b):
+    ms = re.search(r"\*\* (\d+) of (\d+) failed(?: \((.*?)\))?", b)
+    if ms:
+        r["failed"], r["checks"] = int(ms.group(1)), int(ms.group(2))
+        mu = re.search(r"(\d+) unreachable", ms.group(3) or "")
+        r["unreachable"] = int(mu.group(1)) if mu else 0
+    mc = re.search(r"\*\* (\d+) of (\d+) cover properties satisfied", b)
+    if mc:
+        r["covers"] = (int(mc.group(1)), int(mc.group(2)))
+    mt = re.search(r"Verification Time: ([\d.]+)s", b)
+    if mt:
+        r["time_s"] = float(mt.group(1))
+    for fm in re.finditer(r"Failed Checks: (.*)\n\s*File: \"([^\"]*)\", line (\d+), in (\S+)", b):
+        r["failed_checks"].append({"description": fm.group(1).strip(), "file": fm.group(2), "line": int(fm.group(3)), "in": fm.group(4)})
+    if "VERIFICATION:- SUCCESSFUL" in b:
+        r["status"] = "success"
+    elif "VERIFICATION:- FAILED" in b:
+        # a FAILED verdict without any check result is a harness timeout / CBMC crash, not a refutation
+        r["status"] = "failed" if (r["checks"] or r["failed_checks"]) else "tool_error"
+    elif "CBMC failed" in b or "out of memory" in b.lower() or "timed out" in b.lower():
+        r["status"] = "tool_error"
+    else:
+        r["status"] = "unknown"
+    r["raw"] = b[-6000:]
+
+
 def parse_terse(out, harnesses, rc):
     res = {h.full: {"status": "missing", "checks": 0, "failed": 0, "unreachable": 0, "covers": (0, 0), "time_s": 0.0,
                     "failed_checks": [], "harness": h} for h in harnesses}
@@ -266,7 +292,6 @@ def parse_terse(out, harnesses, rc):
         errs = re.findall(r"^error.*(?:\n.*){0,8}", out, re.M)
         raise Undecided("cargo kani: compilation failed\n" + "\n".join(errs[:6]))
     thread_harness = {}
-    single = None
     blocks = re.split(r"^(?=Thread \d+: )", out, flags=re.M)
     for b in blocks:
         m = re.match(r"Thread (\d+): Checking harness (\S+?)\.\.\.", b)
@@ -279,30 +304,12 @@ def parse_terse(out, harnesses, rc):
         name = thread_harness.get(m.group(1))
         if name is None or name not in res:
             continue
-        r = res[name]
-        ms = re.search(r"\*\* (\d+) of (\d+) failed(?: \((.*?)\))?", b)
-        if ms:
-            r["failed"], r["checks"] = int(ms.group(1)), int(ms.group(2))
-            mu = re.search(r"(\d+) unreachable", ms.group(3) or "")
-            r["unreachable"] = int(mu.group(1)) if mu else 0
-        mc = re.search(r"\*\* (\d+) of (\d+) cover properties satisfied", b)
-        if mc:
-            r["covers"] = (int(mc.group(1)), int(mc.group(2)))
-        mt = re.search(r"Verification Time: ([\d.]+)s", b)
-        if mt:
-            r["time_s"] = float(mt.group(1))
-        for fm in re.finditer(r"Failed Checks: (.*)\n\s*File: \"([^\"]*)\", line (\d+), in (\S+)", b):
-            r["failed_checks"].append({"description": fm.group(1).strip(), "file": fm.group(2), "line": int(fm.group(3)), "in": fm.group(4)})
-        if "VERIFICATION:- SUCCESSFUL" in b:
-            r["status"] = "success"
-        elif "VERIFICATION:- FAILED" in b:
-            # a FAILED verdict without any check result is a harness timeout / CBMC crash, not a refutation
-            r["status"] = "failed" if (r["checks"] or r["failed_checks"]) else "tool_error"
-        elif "CBMC failed" in b or "out of memory" in b.lower() or "timed out" in b.lower():
-            r["status"] = "tool_error"
-        else:
-            r["status"] = "unknown"
-        r["raw"] = b[-6000:]
+        _fill(res[name], b)
+    # sequential format (-j 1 / a single harness): "Checking harness NAME..." followed by its result
+    for b in re.split(r"^(?=Checking harness )", out, flags=re.M):
+        m = re.match(r"Checking harness (\S+?)\.\.\.", b)
+        if m and m.group(1) in res and res[m.group(1)]["status"] == "missing":
+            _fill(res[m.group(1)], b)
     return res
 
 
